@@ -1,3 +1,4 @@
+import Btdht.Proofs.GuardTie.Lookup
 import Btdht.Proofs.Handler
 /-!
 # C03 — Searches never fabricate peers, tokens or announce targets on hostile networks
